@@ -84,11 +84,17 @@ PROGRAMS = {
     "err": {"msgs": [M("open_run"), M("checkpoint"), M("null"), M("null"), M("close_run", a="fail"), M("null")],
             "kind": "finally", "try": [2, 4], "cleanup": [5, 5], "raise_at": 4},
     "openonly": {"msgs": [M("open_run"), M("checkpoint"), M("sleep"), M("null")]},
+    # pauses requested by the plan itself (Msg('pause')): resumable, deferred, and in a non-resumable section with the run left open
+    "selfpause": {"msgs": [M("open_run"), M("checkpoint"), M("null"), M("pause", a="F"), M("null"), M("checkpoint"), M("pause", a="T"), M("null"),
+                           M("checkpoint"), M("null"), M("close_run")]},
+    "selfpause_nores": {"msgs": [M("open_run"), M("checkpoint"), M("null"), M("clear_checkpoint"), M("null"), M("pause", a="F"), M("null"), M("null")]},
+    "selfdefer_nores": {"msgs": [M("open_run"), M("checkpoint"), M("pause", a="T"), M("clear_checkpoint"), M("null"), M("checkpoint"), M("null")]},
     # bundle / descriptor / run-key behaviour (monitored; commands beyond RE.tla's vocabulary are not conformance-checked)
     "collide": {"msgs": [M("open_run"), M("checkpoint"), M("create", a="primary"), M("read", "det"), M("read", "det"), M("save"), M("close_run")]},
     "emptysave": {"msgs": [M("open_run"), M("checkpoint"), M("create", a="primary"), M("save"), M("create", a="primary"), M("read", "det"), M("drop"),
-                           M("create", a="primary"), M("read", "det"), M("read", "motor"), M("save"), M("checkpoint"),
-                           M("create", a="baseline"), M("read", "det2"), M("save"), M("close_run")]},
+                           M("create", a="baseline"), M("read", "det2"), M("save"), M("checkpoint"),
+                           M("create", a="primary"), M("read", "det"), M("read", "motor"), M("save"), M("create", a="primary"), M("read", "motor"), M("drop"),
+                           M("create", a="primary"), M("read", "det"), M("read", "motor"), M("save"), M("close_run")]},
     "ckptinb": {"msgs": [M("open_run"), M("checkpoint"), M("create", a="primary"), M("read", "det"), M("checkpoint"), M("save"), M("close_run")]},
     "dupopen": {"msgs": [M("open_run", run="k1"), M("checkpoint"), M("open_run", run="k1"), M("close_run", run="k1")]},
     "cfg": {"msgs": [M("open_run"), M("checkpoint"), M("create", a="primary"), M("read", "det"), M("save"), M("configure", "det"),
@@ -395,7 +401,8 @@ def corpus_spec(tier):
     """the list of sweeps that make up the corpus"""
     quick = tier == "quick"
     sweeps = []
-    progs = ["simple", "two", "fin", "move", "mon", "multi", "defer", "norew", "paus", "err", "openonly"]
+    progs = ["simple", "two", "fin", "move", "mon", "multi", "defer", "norew", "paus", "err", "openonly",
+             "selfpause", "selfpause_nores", "selfdefer_nores"]
     kinds = REQ_KINDS
     if quick:
         sweeps.append(dict(plans=progs, kinds=["pause", "suspend", "abort"], decisions=["resume"], ri=True))
@@ -427,6 +434,8 @@ def build_corpus(tier):
     scs += fault_scenarios(tier)
     scs += monitor_scenarios(tier)
     scs += suspender_scenarios(tier)
+    scs += random_bundle_programs(tier)
+    scs += defer_pair_scenarios(tier)
     for pn, lst in sweep(["collide", "emptysave", "ckptinb", "dupopen", "cfg", "cfginb"], ["pause", "suspend"] if quick_tier(tier) else ["pause", "suspend", "abort", "defer"],
                          ["resume"], record_intr=True):
         if isinstance(lst, dict):
@@ -453,7 +462,8 @@ def build_corpus(tier):
             key = key.rsplit("|", 1)[0]
         exp = base.get(key, []) if "|nori" not in r["id"] else base.get(key, [])
         out.append({"id": r["id"], "events": exp + r["events"], "outcomes": r["outcomes"], "final": r["final"],
-                    "conf": r["id"].split("|")[0] not in NOT_CONFORMANCE and not r["id"].startswith("sus:")})
+                    "conf": r["id"].split("|")[0] not in NOT_CONFORMANCE and not r["id"].startswith("sus:")
+                            and not r["id"].startswith("rb") and not r["id"].startswith("mon|notify")})
     return {"traces": out, "wall": time.time() - t0}
 
 
@@ -484,10 +494,13 @@ def fault_scenarios(tier):
             base = base_scenario("move", faults={dev: {op: mode}}, delay={dev: 1.0} if mode == "fail_later" else None)
             base["id"] = f"move|fault:{dev}.{op}:{mode}"
             out.append(base)
-            if not quick:
-                n = run_one(base)["points"]
-                for p in range(n + 1):
-                    out.append(with_inject(base, [{"at": p, "kind": "pause"}], ["resume"] * 3, f"pause@{p}"))
+            n = run_one(base)["points"]
+            # an interruption BEFORE the fault (the failure must still reach the plan afterwards) and, thorough, anywhere
+            for p in (range(n + 1) if not quick else (range(2, 10) if mode != "raise" else ())):
+                out.append(with_inject(base, [{"at": p, "kind": "pause"}], ["resume"] * 3, f"pause@{p}"))
+                if not quick or p % 2 == 0:
+                    out.append(with_inject(base, [{"at": p, "kind": "suspend", "arg": "f1"}, {"at": p + 2, "kind": "release", "arg": "f1"}],
+                                           ["resume"] * 3, f"suspend@{p}"))
     base = base_scenario("move", delay={"motor": 1.0, "det": 1.0})
     base["id"] = "move|slow"
     n = run_one(base)["points"]
@@ -504,6 +517,14 @@ def fault_scenarios(tier):
 def monitor_scenarios(tier):
     """monitor updates at every scheduling point, alone and around a pause / suspension"""
     out = []
+    # a signal that notifies on subscribe + a document consumer that rejects monitor events (the run fails inside `monitor`)
+    sc = base_scenario("mon")
+    sc["devices"]["mon1"]["notify"] = True
+    sc["id"] = "mon|notify"
+    out.append(copy.deepcopy(sc))
+    sc["options"]["raising_consumer"] = "mon1"
+    sc["id"] = "mon|notify+raising-consumer"
+    out.append(sc)
     base = base_scenario("mon")
     n = run_one(base)["points"]
     for p in range(n + 1):
@@ -555,6 +576,59 @@ def suspender_scenarios(tier):
             out.append(mk(plan, f"trip2@{p}", {"sig1": 0, "sig2": 0}, [["sus_install", "s1", 0], ["sus_install", "s2", 0]],
                           [{"at": p, "kind": "sig_put", "arg": "sig1", "value": 1}, {"at": p, "kind": "sig_put", "arg": "sig2", "value": 1},
                            {"at": p + 2, "kind": "sig_put", "arg": "sig1", "value": 0}, {"at": p + 5, "kind": "sig_put", "arg": "sig2", "value": 0}]))
+    return out
+
+
+def random_bundle_programs(tier, seed=0):
+    """seeded random straight-line programs over the bundling vocabulary (two streams, four devices, drop / empty save /
+    checkpoint between bundles, two run keys): executed uninterrupted and with a pause+resume at a few points"""
+    rng = random.Random(1000 + seed)
+    out = []
+    nprog = 12 if tier == "quick" else 120
+    streams = {"primary": [["det"], ["det", "motor"]], "baseline": [["det2"], ["det2", "pdet"]]}
+    for n in range(nprog):
+        msgs = [M("open_run"), M("checkpoint")]
+        fixed = {s: rng.choice(v) for s, v in streams.items()}     # a stream keeps its device set (else: RuntimeError by design)
+        for _ in range(rng.randint(3, 7)):
+            sname = rng.choice(list(streams))
+            msgs.append(M("create", a=sname))
+            kind = rng.random()
+            if kind < 0.15:
+                msgs.append(M("save"))                  # empty bundle
+            elif kind < 0.4:
+                for d in rng.sample(["det", "det2", "motor", "pdet"], rng.randint(1, 2)):
+                    msgs.append(M("read", d))
+                msgs.append(M("drop"))
+            else:
+                for d in fixed[sname]:
+                    msgs.append(M("read", d))
+                msgs.append(M("save"))
+            if rng.random() < 0.5:
+                msgs.append(M("checkpoint"))
+        msgs.append(M("close_run"))
+        name = f"rb{n}"
+        PROGRAMS[name] = {"msgs": msgs}
+        base = base_scenario(name)
+        out.append(base)
+        npts = len(msgs) * 2
+        for p in sorted(rng.sample(range(npts), 3 if tier == "quick" else 8)):
+            out.append(with_inject(base, [{"at": p, "kind": "pause"}], ["resume"] * 3, f"pause@{p}|resume"))
+    return out
+
+
+def defer_pair_scenarios(tier):
+    """a deferred pause followed, before the next checkpoint, by another interruption (suspension, pause+resume)"""
+    out = []
+    for plan in ("defer",) if tier == "quick" else ("defer", "two", "norew"):
+        base = base_scenario(plan)
+        n = run_one(base)["points"]
+        for p in range(n + 1):
+            for d in (1, 2) if tier == "quick" else (1, 2, 3, 5):
+                for k2 in ("suspend", "pause"):
+                    inj = [{"at": p, "kind": "defer"}, {"at": p + d, "kind": k2, "arg": "f1"}]
+                    if k2 == "suspend":
+                        inj.append({"at": p + d + 2, "kind": "release", "arg": "f1"})
+                    out.append(with_inject(base, inj, ["resume"] * 4, f"defer@{p}+{k2}@{p + d}"))
     return out
 
 
